@@ -123,6 +123,11 @@ func (c *container) addKv(key, value string) ([]string, bool) {
 	defer c.lock.Unlock()
 
 	c.dirty.Set(true)
+	// the key may be registered with another value already (updated in place),
+	// it must not stay associated with the previous value
+	if prev, ok := c.mapping[key]; ok && prev != value {
+		c.doRemoveKey(key)
+	}
 	keys := c.values[value]
 	previous := append([]string(nil), keys...)
 	early := len(keys) > 0
